@@ -12,9 +12,15 @@ EXTENDS Shutdown, Sequences, Json, TLCExt
 
 TraceLog == ndJsonDeserialize("trace.ndjson")
 
-VARIABLE l
+VARIABLE l,
+         \* bookkeeping for "idle keep-alive connections are closed rather than waited for" (see SkipRule)
+         lastIdle,     \* connection the current closeIdleConns round has just found idle (its close line may follow)
+         skipCredit,   \* [Conns -> Nat] requests its loop started since the current round began
+         skipPending   \* [Conns -> Nat] rounds that found it idle, left it open, and are not yet explained
+gvars == <<lastIdle, skipCredit, skipPending>>
 
 TraceConns == 1..TraceLog[1].nc
+TraceListeners == 1..TraceLog[1].nlmax
 TraceMaxReq == TraceLog[1].maxreq
 TraceCOS == TraceLog[1].cos = 1
 
@@ -24,42 +30,69 @@ IsEvent(name) == l <= Len(TraceLog) /\ E.ev = name /\ l' = l + 1
 \* the real idleConnTime of the connection, read by its own loop at the logged step, agrees with the
 \* modelled idle mark: 0 active, 1 a time stamp (idle / not yet idle), -1 claimed by closeIdleConns
 \* (whose own line may not be in the log yet), 9 not known
-MarkClass(m) == CASE m = "active" -> 0 [] m = "closing" -> -1 [] OTHER -> 1
+MarkClass(m) == CASE m = "active" -> 0 [] m = "closing" -> -1 [] OTHER -> 1   \* "fresh", "idle", "idleOld": a time stamp
 MarkOk(c) == E.m \in {-1, 9} \/ E.m = MarkClass(mark'[c])
 
 InitVals ==
-  /\ sd' = "no" /\ stop' = FALSE /\ lnOpen' = TRUE /\ serveRunning' = TRUE /\ done' = "open" /\ doneFlag' = FALSE
-  /\ open' = 1 /\ scanned' = {} /\ victim' = NoConn
+  /\ sd' = "no" /\ stop' = FALSE /\ lnOpen' = TRUE /\ done' = "open" /\ doneFlag' = FALSE
+  /\ serveRunning' = [x \in Listeners |-> x <= E.nl] /\ accepting' = [x \in Listeners |-> NoConn]
+  /\ open' = E.nl /\ scanned' = {} /\ victim' = NoConn
   /\ ph' = [c \in Conns |-> "none"] /\ mark' = [c \in Conns |-> "fresh"]
   /\ inmap' = [c \in Conns |-> FALSE] /\ netClosed' = [c \in Conns |-> FALSE] /\ cclosed' = [c \in Conns |-> FALSE]
+  /\ tout' = [c \in Conns |-> FALSE]
   /\ wire' = [c \in Conns |-> 0] /\ buf' = [c \in Conns |-> 0] /\ sent' = [c \in Conns |-> 0]
   /\ nstart' = [c \in Conns |-> 0] /\ unflushed' = [c \in Conns |-> 0]
   /\ delivered' = [c \in Conns |-> 0] /\ lost' = [c \in Conns |-> 0]
 
-TraceInit == Init /\ l = 1
+GInit == lastIdle = NoConn /\ skipCredit = [c \in Conns |-> 0] /\ skipPending = [c \in Conns |-> 0]
+GReset == lastIdle' = NoConn /\ skipCredit' = [c \in Conns |-> 0] /\ skipPending' = [c \in Conns |-> 0]
+TraceInit == Init /\ l = 1 /\ GInit
 
-TReset == IsEvent("init") /\ InitVals
+(* SkipRule.  closeIdleConns leaves a connection it found idle (a time stamp that is not in the future) open
+   only if the claim by compare-and-swap failed, i.e. the connection's loop turned it active after the
+   round began; the loop then logs its first-byte step (possibly with delay, but before the execution
+   ends, and after the line that began the round).  So every "found idle, left open" must be matched by
+   a distinct first-byte line of that connection logged after the round's begin line.  A connection that
+   round after round is found idle and left open - Shutdown waiting for an idle keep-alive connection
+   instead of closing it - leaves unmatched skips when the execution ends. *)
+Settle(x) == IF x = NoConn THEN UNCHANGED <<skipCredit, skipPending>>
+             ELSE IF skipCredit[x] > 0
+                  THEN skipCredit' = [skipCredit EXCEPT ![x] = @ - 1] /\ UNCHANGED skipPending
+                  ELSE skipPending' = [skipPending EXCEPT ![x] = @ + 1] /\ UNCHANGED skipCredit
+LoopStarted(c) == /\ UNCHANGED lastIdle
+                  /\ IF skipPending[c] > 0
+                     THEN skipPending' = [skipPending EXCEPT ![c] = @ - 1] /\ UNCHANGED skipCredit
+                     ELSE skipCredit' = [skipCredit EXCEPT ![c] = @ + 1] /\ UNCHANGED skipPending
+
+TReset == IsEvent("init") /\ InitVals /\ GReset
+\* the execution has wound up: nothing the scans skipped is left unexplained
+TExecEnd == IsEvent("exec.end") /\ (\A c \in Conns : skipPending[c] = 0) /\ UNCHANGED <<vars, gvars>>
 TSend == IsEvent("cl.send") /\ ClientSend(E.c, E.k)
 TCClose == IsEvent("cl.close") /\ ~cclosed[E.c] /\ cclosed' = [cclosed EXCEPT ![E.c] = TRUE]
-             /\ UNCHANGED <<svars, serveRunning, open, ph, mark, inmap, netClosed, wire, buf, sent, nstart, unflushed, delivered, lost>>
-TAccept == IsEvent("srv.open.inc") /\ Accept(E.c)
-TServeRet == IsEvent("srv.serve.ret") /\ serveRunning /\ serveRunning' = FALSE /\ open' = open - 1
-               /\ UNCHANGED <<svars, cvars>>
+             /\ UNCHANGED <<svars, serveRunning, accepting, open, ph, mark, inmap, netClosed, tout, wire, buf, sent, nstart, unflushed, delivered, lost>>
+\* Accept of listener E.l returned connection E.c (logged by the listener before it hands the connection over)
+TTake == IsEvent("ln.accept") /\ AcceptTake(E.ln, E.c)
+TAccept == IsEvent("srv.open.inc") /\ \E x \in Listeners : accepting[x] = E.c /\ AcceptCount(x)
+TServeRet == IsEvent("srv.serve.ret") /\ ServeReturnL(E.ln)
 TReg == IsEvent("srv.conn.reg") /\ Register(E.c)
 TFirst == IsEvent("srv.firstbyte") /\ (FirstByteFrom(E.c, "top", TRUE) \/ FirstByteFrom(E.c, "check", TRUE))
-            /\ ph'[E.c] = "read" /\ MarkOk(E.c)
+            /\ ph'[E.c] = "read" /\ MarkOk(E.c) /\ LoopStarted(E.c)
 \* the loop found its connection claimed by closeIdleConns and gives up before starting a request
 TClaimed == IsEvent("srv.claimed") /\ ph[E.c] \in {"top", "check"} /\ ph' = [ph EXCEPT ![E.c] = "leaving"]
-              /\ UNCHANGED <<svars, serveRunning, open, mark, inmap, netClosed, cclosed, wire, buf, sent, nstart, unflushed, delivered, lost>>
+              /\ UNCHANGED <<svars, serveRunning, accepting, open, mark, inmap, netClosed, cclosed, tout, wire, buf, sent, nstart, unflushed, delivered, lost>>
+              /\ LoopStarted(E.c)
 THStart == IsEvent("srv.h.start") /\ HandlerStart(E.c) /\ nstart'[E.c] = E.i /\ MarkOk(E.c)
-THEnd == IsEvent("srv.h.end") /\ HandlerEnd(E.c) /\ MarkOk(E.c)
+THEnd == IsEvent("srv.h.end") /\ HandlerEndK(E.c, FALSE) /\ MarkOk(E.c)
+\* the request was answered through TimeoutError* / TimeoutHandler: the loop continues with a fresh ctx
+TSwap == IsEvent("srv.ctxswap") /\ ph[E.c] = "respond" /\ tout' = [tout EXCEPT ![E.c] = TRUE]
+           /\ UNCHANGED <<svars, serveRunning, accepting, open, ph, mark, inmap, netClosed, cclosed, wire, buf, sent, nstart, unflushed, delivered, lost>>
 TResp == IsEvent("srv.resp") /\ WriteResp(E.c) /\ MarkOk(E.c)
 \* a successful Write on the connection: the normal flush, or the flush before leaving on stop
 TWriteOk == IsEvent("conn.write") /\ E.ok = 1 /\ (FlushEffect(E.c) \/ StopFlushEffect(E.c)) /\ MarkOk(E.c)
 TWriteFail == IsEvent("conn.write") /\ E.ok = 0
                 /\ \/ ph[E.c] = "written" /\ ph' = [ph EXCEPT ![E.c] = "leaving"]
                    \/ ph[E.c] = "stopping" /\ ph' = [ph EXCEPT ![E.c] = "leaving"]
-                /\ UNCHANGED <<svars, serveRunning, open, mark, inmap, netClosed, cclosed, wire, buf, sent, nstart, unflushed, delivered, lost>>
+                /\ UNCHANGED <<svars, serveRunning, accepting, open, mark, inmap, netClosed, cclosed, tout, wire, buf, sent, nstart, unflushed, delivered, lost>>
 TCCBreak == IsEvent("srv.cc.break") /\ CloseBreak(E.c)
 TIdle == IsEvent("srv.idle") /\ MarkIdleEffect(E.c) /\ MarkOk(E.c)
 TStopSeen == IsEvent("srv.stop.seen") /\ StopSeen(E.c) /\ MarkOk(E.c)
@@ -73,19 +106,24 @@ TStop == IsEvent("sd.stop") /\ SetStop
 TLnClosed == IsEvent("sd.lnclosed") /\ CloseListeners
 \* the line carries the state of the real s.done right after the close block: 1 closed, 0 open, 2 nil
 TDone == IsEvent("sd.done") /\ CloseDone /\ E.closed = (CASE done' = "closed" -> 1 [] done' = "open" -> 0 [] OTHER -> 2)
-TServeAgain == IsEvent("serve.again") /\ ServeAgain
-TScanBegin == IsEvent("sd.scan.begin") /\ ScanBegin
-TScanTest == IsEvent("sd.idle.test") /\ ScanTestResult(E.c, FALSE)
-TCloseIdle == IsEvent("sd.idle.close") /\ CloseIdleNow(E.c)
-TScanEnd == IsEvent("sd.scan.end") /\ ScanEnd
+TServeAgain == IsEvent("serve.again") /\ ServeAgainSet(1..E.nl)
+TScanBegin == IsEvent("sd.scan.begin") /\ ScanBegin /\ lastIdle = NoConn /\ lastIdle' = NoConn
+                /\ skipCredit' = [c \in Conns |-> 0] /\ UNCHANGED skipPending
+TScanTest == IsEvent("sd.idle.test") /\ ScanTestResult(E.c, FALSE) /\ Settle(lastIdle)
+               /\ lastIdle' = IF E.idle = 1 THEN E.c ELSE NoConn
+TCloseIdle == IsEvent("sd.idle.close") /\ CloseIdleNow(E.c) /\ lastIdle = E.c /\ lastIdle' = NoConn
+                /\ UNCHANGED <<skipCredit, skipPending>>
+TScanEnd == IsEvent("sd.scan.end") /\ ScanEnd /\ Settle(lastIdle) /\ lastIdle' = NoConn
 TReturn == IsEvent("sd.return") /\ ReadOpenResult(TRUE)
 TWait == IsEvent("sd.wait") /\ ReadOpenResult(FALSE)
 
-TraceNext == \/ TReset \/ TSend \/ TCClose \/ TAccept \/ TServeRet \/ TReg \/ TFirst \/ TClaimed \/ THStart \/ THEnd
+PlainNext == \/ TSend \/ TCClose \/ TTake \/ TAccept \/ TServeRet \/ TReg \/ THStart \/ THEnd \/ TSwap
              \/ TResp \/ TWriteOk \/ TWriteFail \/ TCCBreak \/ TIdle \/ TStopSeen \/ TUnreg \/ TOpenDec
-             \/ TStop \/ TLnClosed \/ TDone \/ TServeAgain \/ TScanBegin \/ TScanTest \/ TCloseIdle \/ TScanEnd \/ TReturn \/ TWait
+             \/ TStop \/ TLnClosed \/ TDone \/ TServeAgain \/ TReturn \/ TWait
+TraceNext == \/ PlainNext /\ UNCHANGED gvars
+             \/ TReset \/ TExecEnd \/ TFirst \/ TClaimed \/ TScanBegin \/ TScanTest \/ TCloseIdle \/ TScanEnd
 
-TraceSpec == TraceInit /\ [][TraceNext]_<<vars, l>>
+TraceSpec == TraceInit /\ [][TraceNext]_<<vars, l, gvars>>
 
 \* NoActiveClosed is left to the model (a logged Close precedes the real one); its consequence, a
 \* dropped response, is what NoLoss / ReturnedAnswered see
